@@ -544,6 +544,10 @@ def run(ctx):
     ctx.parallel(_part_b, [per] * 16)
     per_c = ctx.scale(100, 1500)
     ctx.parallel(_part_c, [(per_c, 16, k) for k in range(16)])
+    # coverage-guided campaigns over raw config text: whatever the parser accepts must survive write -> read (E3)
+    from .. import fuzz
+
+    fuzz.run_campaigns(ctx, "vf.fuzzt.c20", [("parse_write_parse", ctx.scale(15000, 1000000), ctx.scale(8, 16))])
 
 
 def replay(ctx, check, case):
@@ -555,5 +559,9 @@ def replay(ctx, check, case):
         judge_batch(ctx, [tuple(e) for e in case["entries"]])
     elif check == "git-written":
         _judge_git_written_single(ctx, tuple(case["section"]), case["key"], case["value"], check)
+    elif check == "fuzz":
+        from .. import fuzz
+
+        fuzz.replay(ctx, case)
     else:
         raise HarnessError(f"unknown check {check!r}")
